@@ -234,6 +234,30 @@ def s_standard_fee():
         "payables": st.lists(payable, min_size=1, max_size=6)})
 
 
+def o_fee_identity_coinbase(case):
+    """"the reported fee always equals inputs minus outputs" on the one kind of transaction that has no spendables: a
+    coinbase, built by the library's constructor and paying several parties; whatever total_in() means there, fee() is
+    total_in() - total_out()"""
+    import hashlib
+    from oracles import refec, refenc
+    x, y = refec.SECP256K1.mul(case["k"], refec.SECP256K1.G)
+    tx = Tx.coinbase_tx(refenc.sec_encode(x, y, True), case["values"][0], coinbase_bytes=bytes.fromhex(case["script"]))
+    for j, v in enumerate(case["values"][1:]):
+        tx.txs_out.append(Tx.TxOut(v, refvalue.p2pkh(hashlib.sha256(b"pool member %d" % j).digest()[:20])[1]))
+    if case["reparse"]:
+        tx = Tx.from_bin(tx.as_bin())
+    tin, tout, f = tx.total_in(), tx.total_out(), tx.fee()
+    if tout != sum(case["values"]) or f != tin - tout:
+        _bad("tx:fee-arithmetic:coinbase", "coinbase paying %s: total_in() %d, total_out() %d, fee() %d" % (case["values"], tin, tout, f))
+    return ["outputs=%s" % (len(case["values"]) if len(case["values"]) < 3 else "3+"), "reparsed" if case["reparse"] else "constructed"]
+
+
+def s_fee_identity_coinbase():
+    return st.fixed_dictionaries({"k": st.integers(1, 50), "script": st.sampled_from(["", "03a0bb0d", "51" * 40]), "reparse": st.booleans(),
+                                  "values": st.lists(st.one_of(st.integers(0, 50 * 10**8), st.sampled_from([0, 1, 625000000, 5000000000])),
+                                                     min_size=1, max_size=5)})
+
+
 def nt_create(case, labels):
     return ("k=2+" in labels and "rem>0" in labels) or any(x in labels for x in ("R=k-1", "R=k", "R=k+1"))
 
@@ -605,6 +629,10 @@ SUBCHECKS = [
                   "fixed amounts, bare addresses and (address, 0)): the fee amount itself is the library's estimate and is not judged; fixed "
                   "outputs as given, unspecified outputs equal up to one satoshi with the larger first, fee() == total_in() - total_out() "
                   ">= 0; non-trivial = two or more unspecified outputs"),
+    SubCheck("fee_identity_coinbase", o_fee_identity_coinbase, strategy=s_fee_identity_coinbase, budget=(400, 10000),
+             nontrivial=lambda c, l: "outputs=1" not in l,
+             rule="Tx.coinbase_tx(...) with 0-4 further outputs appended (a pool paying several parties), as constructed or re-parsed: "
+                  "total_out() is the sum of the outputs and fee() == total_in() - total_out(); non-trivial = two or more outputs"),
     SubCheck("validate_unspents", o_validate, strategy=s_validate, budget=(4000, 300000),
              nontrivial=lambda c, l: "consistent" not in l,
              rule="1-5 source transactions (1-5 outputs each) filed under the reference txid, a spending transaction with 1-8 distinct "
